@@ -51,6 +51,22 @@ fn term_strict() -> bool {
     *ON.get_or_init(|| std::env::var("VERIF_TERM_STRICT").is_ok())
 }
 
+/// Counter names are `&'static str`; the few dozen dynamic ones (interrupt sites) are interned once.
+fn intern(s: &str) -> &'static str {
+    thread_local! {
+        static NAMES: RefCell<BTreeMap<String, &'static str>> = const { RefCell::new(BTreeMap::new()) };
+    }
+    NAMES.with(|n| {
+        let mut n = n.borrow_mut();
+        if let Some(x) = n.get(s) {
+            return *x;
+        }
+        let leaked: &'static str = Box::leak(s.to_string().into_boxed_str());
+        n.insert(s.to_string(), leaked);
+        leaked
+    })
+}
+
 pub fn last_panic() -> String {
     LAST_PANIC.with(|p| p.borrow().clone())
 }
@@ -458,6 +474,8 @@ impl World {
         if !self.intr_sites.contains(&site) {
             self.intr_sites.push(site.clone());
         }
+        // reach measure: how often an interrupt landed in each (state, next opcode) situation
+        self.stats.bump(intern(&format!("intr.site.{}", site)));
         self.last_intr_site = site;
         self.last_intr_in_program = p.in_program;
         self.last_intr_col = self.true_col;
